@@ -83,6 +83,13 @@ pub fn run(args: &Args, rep: &mut Report) {
                 let kind = *rng.pick(&MUTATIONS);
                 let bytes = mutate(&mut rng, &r, kind);
                 check(rep, case, &router, &bytes, Some(kind), &r.features);
+            } else if rng.chance(1, 6) {
+                // bytes after the end of the request in the same first read (stray CRLF, a pipelined request, padding): what becomes
+                // of them is C06's question, but the first request must still be parsed faithfully: payload = exactly Content-Length bytes
+                let tail: &[u8] = *rng.pick(&[&b"\r\n"[..], b"GET /next?token=42 HTTP/1.1\r\nHost: t\r\n\r\n", b"\0\0\0\0", b"x", b"POST /n HTTP/1.1\r\nContent-Length: 3\r\n\r\nabc"]);
+                let bytes = [r.bytes(), tail.to_vec()].concat();
+                rep.count("class:valid+trailing-bytes");
+                check(rep, case, &router, &bytes, None, &format!("{}|trailing", r.features));
             } else {
                 check(rep, case, &router, &r.bytes(), None, &r.features);
             }
